@@ -38,7 +38,7 @@ REQUIRED_COUNTERS = ['line_level_schedules', 'schedules_run', 'schedules_complet
 
 
 def plan(tier):
-    return dict(cases=8000 if tier == 'quick' else 160000, shards=16, timeout=900 if tier == 'quick' else 3600)
+    return dict(cases=5000 if tier == 'quick' else 120000, shards=16, timeout=900 if tier == 'quick' else 3600)
 
 
 def chart():
